@@ -30,14 +30,18 @@ def process_level(res, tier):
             for stencil in (3, 4):
                 cases.append((n, stencil, 1.4, 3, geo))
         cases.append((n, 4, 1.4, 1, 4))
+        # neither damping nor diffusion, said in the two ways the program offers: FPType 0, and a damping time of exactly 0
+        for zoom in (0.7, 1.4):
+            cases.append((n, 4, zoom, 0, 0))
+            cases.append((n, 4, zoom, -1, 0))
     steps, td = 64, 2.0    # damping time in synchrotron periods
     fs = 45000.0
 
     def do(c):
         n, stencil, zoom, fptype, geo = c
-        T = 8 * td if fptype == 3 else 0.4 * td
+        T = 8 * td if fptype == 3 else (8.0 if fptype <= 0 else 0.4 * td)
         n += (1 if geo == 2 else 0)
-        a = GEO[geo] + ["-s", n, "-N", steps, "-T", T, "-n", 8, "-G", 0, "-f", fs, "-d", td / fs, "--derivation", stencil, "--FPType", fptype,
+        a = GEO[geo] + ["-s", n, "-N", steps, "-T", T, "-n", 8, "-G", 0, "-f", fs, "-d", (td / fs if fptype >= 0 else 0), "--derivation", stencil, "--FPType", (fptype if fptype >= 0 else 3),
              "--InitialDistZoom", zoom, "--padding", 2]
         r = pl.run(exe, a, wd, out="o_%d_%d_%g_%d_%d.h5" % c)
         doc = pl.h5(r["h5"], maxv=20000) if r["rc"] == 0 else None
@@ -49,7 +53,7 @@ def process_level(res, tier):
         return c, r, doc
     for c, r, doc in pl.pmap(do, cases):
         n, stencil, zoom, fptype, geo = c
-        case = "process n=%d stencil=%d zoom=%g fptype=%d" % c[:4] + ((" geometry=" + "_".join(str(x) for x in GEO[geo])) if geo else "")
+        case = "process n=%d stencil=%d zoom=%g fptype=%s" % (c[0], c[1], c[2], c[3] if c[3] >= 0 else "3,DampingTime=0") + ((" geometry=" + "_".join(str(x) for x in GEO[geo])) if geo else "")
         n += (1 if geo == 2 else 0)
         rp = dict(cmd=r["cmd"])
         if doc is None or "error" in doc:
@@ -72,6 +76,13 @@ def process_level(res, tier):
                 res.coverage["worst_process_limit_over_tol"] = max(res.coverage.get("worst_process_limit_over_tol", 0), max(abs(mq - 1), abs(mp - 1)) / tol)
                 if not (abs(mq - 1) <= tol and abs(mp - 1) <= tol):
                     res.violate("C04/process/full/stencil=%d/wrong-limit" % stencil, bcase, "after 8 damping times bunch length %.5f, energy spread %.5f (tolerance %.4f)" % (mq, mp, tol), replay=rp)
+            elif fptype <= 0:
+                s2 = [a * a + b * b for a, b in zip(bl, es)]
+                drift = max(abs(x - s2[0]) for x in s2)
+                res.coverage["worst_process_none_drift_over_tol"] = max(res.coverage.get("worst_process_none_drift_over_tol", 0), drift / 0.05)
+                if not (drift <= 0.05):
+                    res.violate("C04/process/none/%s/does-not-stay-put" % ("FPType=0" if fptype == 0 else "DampingTime=0"), bcase,
+                                "sigma_q^2+sigma_p^2 moves from %.5f by up to %.5f over 8 periods with damping and diffusion switched off" % (s2[0], drift), replay=rp)
             else:
                 s2 = [a * a + b * b for a, b in zip(bl, es)]
                 for i in range(1, len(s2)):
